@@ -148,8 +148,31 @@ def run(ctx):
            and c["ll"][1]["flags"] == c["ll"][2]["flags"]]
     # rewrites among the ignored glyphs that trail an outer match (its end has to follow): a sample; C06 runs all
     trail = sc.build(["ctxtrail"])[::5]
+    # one subject for every lookup type and subtable format, GSUB and GPOS apart (the engine sees the type number:
+    # 5/6 and 7/8 are the same code, 8 is a different one in each table), with and without a filter
+    def sig(c):
+        ks = []
+        for L in c["ll"]:
+            for st in L["subs"]:
+                k = st["k"]
+                if k == "ctx":
+                    k = "%s%d" % ("chain" if st.get("chain") else "ctx", st.get("fmt", 3))
+                ks.append(("P" if L.get("gpos") else "S") + k + ("f" if (L["flags"] or L["useSet"] or L["attach"]) else ""))
+        return tuple(sorted(set(ks)))
+    perkind, seen_sig = [], set()
+    for c in others + sc.build(["block"]):
+        new = [k for k in sig(c) if k not in seen_sig]
+        if new:
+            seen_sig.update(new)
+            perkind.append(c)
     must = [c for c in others if multi_lig(c)] + nest + sc.build(["curs"]) + sib + trail
-    others = must + [c for c in others if not multi_lig(c)][:ctx.pick(45, 600)]
+    must += [c for c in perkind if not any(c is m for m in must)]
+    # the same subjects with every lookup of the list applied at the top level, in list order and the first one
+    # again: whatever a contextual lookup leaves behind meets the lookups (and the calls) that follow
+    for c in perkind:
+        if len(c["ll"]) > 1:
+            must.append(dict(c, order=list(range(1, len(c["ll"]) + 1)) + [1], family=c["family"] + "+all"))
+    others = must + [c for c in others if not multi_lig(c) and not any(c is m for m in perkind)][:ctx.pick(45, 600)]
     rnd = [sc.random_case(rng, 0, 6) for _ in range(ctx.pick(40, 400))]
     cases = []
     for c0 in mal + others + rnd:
